@@ -87,6 +87,9 @@ func layout(r *vk.RNG, toks []tok, style int) string {
 				}
 				if prev.kind != tkFunc && (prev.kind == tkStr || prev.s == ")" || prev.s == "}" || prev.s == "]" || prev.s == ",") && r.Chance(1, 6) {
 					sep = " # " + vk.Pick(r, []string{"comment", "{job=\"x\"} |= \"not code\"", "", "sum by (a)"}) + "\n"
+					if r.Chance(1, 3) {
+						sep = vk.Pick(r, []string{" #\n", "#\n", "\n#\n", " #\n#\n", " #\r\n"}) // empty comments
+					}
 				}
 			}
 			sb.WriteString(sep)
@@ -94,7 +97,7 @@ func layout(r *vk.RNG, toks []tok, style int) string {
 		sb.WriteString(t.s)
 	}
 	if style >= 2 && r.Chance(1, 5) {
-		sb.WriteString(" # trailing comment")
+		sb.WriteString(vk.Pick(r, []string{" # trailing comment", " #", "#", " # x\n", " #\n"}))
 	}
 	return sb.String()
 }
